@@ -440,7 +440,7 @@ package snaps
 //@   requires s != nil && s.running != nil && s.cleanup != nil && s.running != s.cleanup && held[s.Mutex] == 0
 //@   assigns s.running[snapPath], s.cleanup[snapPath]
 //@   ensures s.running[snapPath] == old(s.running[snapPath]) + 1 && s.cleanup[snapPath] == old(s.cleanup[snapPath]) + 1
-//@   ensures p == sprintf_d(snapPath, s.running[snapPath]) && prel == sprintf_d(snapPathRel, s.running[snapPath])
+//@   ensures p == ordPath(snapPath, s.running[snapPath]) && prel == ordPath(snapPathRel, s.running[snapPath])
 //@   ensures held[s.Mutex] == 0
 //@
 //@ func (*syncStandaloneRegistry).reset(s, snapPath)
@@ -703,7 +703,7 @@ package snaps
 //@   requires standaloneTestsRegistry.Mutex != testEvents.Mutex
 //@   let gp = snapPathSpec(c.snapsDir, c.filename, c.extension, tname(t), true, isTrimBathBuild, baseCaller(3))
 //@   let k = old(standaloneTestsRegistry.running[gp]) + 1
-//@   let sp = sprintf_d(gp, k)
+//@   let sp = ordPath(gp, k)
 //@   requires fsguard[sp] == nil
 //@   let hit = old(fsx[sp])
 //@   let stored = old(fsc[sp])
@@ -759,7 +759,7 @@ package snaps
 //@   requires standaloneTestsRegistry.Mutex != testEvents.Mutex
 //@   let gp = snapPathSpec(c.snapsDir, c.filename, c.extension, tname(t), true, isTrimBathBuild, baseCaller(3))
 //@   let k = old(standaloneTestsRegistry.running[gp]) + 1
-//@   let sp = sprintf_d(gp, k)
+//@   let sp = ordPath(gp, k)
 //@   requires fsguard[sp] == nil
 //@   let hit = old(fsx[sp])
 //@   let stored = old(fsc[sp])
@@ -1179,7 +1179,7 @@ package snaps
 //@   requires standaloneTestsRegistry.Mutex != testEvents.Mutex
 //@   let gp = snapPathSpec(c.snapsDir, c.filename, c.extension, tname(t), true, isTrimBathBuild, baseCaller(3))
 //@   let k = old(standaloneTestsRegistry.running[gp]) + 1
-//@   let sp = sprintf_d(gp, k)
+//@   let sp = ordPath(gp, k)
 //@   requires fsguard[sp] == nil
 //@   let hit = old(fsx[sp])
 //@   let stored = old(fsc[sp])
@@ -1226,7 +1226,7 @@ package snaps
 //@   requires standaloneTestsRegistry.Mutex != testEvents.Mutex
 //@   let gp = snapPathSpec(c.snapsDir, c.filename, c.extension, tname(t), true, isTrimBathBuild, baseCaller(3))
 //@   let k = old(standaloneTestsRegistry.running[gp]) + 1
-//@   let sp = sprintf_d(gp, k)
+//@   let sp = ordPath(gp, k)
 //@   requires fsguard[sp] == nil
 //@   let hit = old(fsx[sp])
 //@   let stored = old(fsc[sp])
@@ -1274,7 +1274,7 @@ package snaps
 //@   requires standaloneTestsRegistry.Mutex != testEvents.Mutex
 //@   let gp = snapPathSpec(c.snapsDir, c.filename, (c.extension == "" ? ".json" : c.extension), tname(t), true, isTrimBathBuild, baseCaller(3))
 //@   let k = old(standaloneTestsRegistry.running[gp]) + 1
-//@   let sp = sprintf_d(gp, k)
+//@   let sp = ordPath(gp, k)
 //@   requires fsguard[sp] == nil
 //@   let hit = old(fsx[sp])
 //@   let stored = old(fsc[sp])
@@ -1327,7 +1327,7 @@ package snaps
 //@   requires standaloneTestsRegistry.Mutex != testEvents.Mutex
 //@   let gp = snapPathSpec(c.snapsDir, c.filename, (c.extension == "" ? ".json" : c.extension), tname(t), true, isTrimBathBuild, baseCaller(3))
 //@   let k = old(standaloneTestsRegistry.running[gp]) + 1
-//@   let sp = sprintf_d(gp, k)
+//@   let sp = ordPath(gp, k)
 //@   requires fsguard[sp] == nil
 //@   let hit = old(fsx[sp])
 //@   let stored = old(fsc[sp])
@@ -1386,7 +1386,7 @@ package snaps
 //@   mode ctl
 //@   pure
 //@   assigns nothing
-//@   ensures r == sprintf_d(s, i)
+//@   ensures r == ordPath(s, i)
 //@
 // natCmp: the comparator of Clean's sort. cmpOf(f, a, b) is the value of calling the function value f; for naturalSort it
 // is natCmp (postcondition cmp of naturalSort). sortedBy(f, s) is what slices.IsSortedFunc reports and slices.SortFunc
@@ -1405,7 +1405,7 @@ package snaps
 //@
 // A formatter is a pure function; occFmt(f, s, i) is its value. The two formatters of this package:
 //@ axiom occFmt_snapshot: forall s Str, i Int {occFmt(fn.snaps.snapshotOccurrenceFMT, s, i)}: occFmt(fn.snaps.snapshotOccurrenceFMT, s, i) == s + " - " + itoa(i)
-//@ axiom occFmt_standalone: forall s Str, i Int {occFmt(fn.snaps.standaloneOccurrenceFMT, s, i)}: occFmt(fn.snaps.standaloneOccurrenceFMT, s, i) == sprintf_d(s, i)
+//@ axiom occFmt_standalone: forall s Str, i Int {occFmt(fn.snaps.standaloneOccurrenceFMT, s, i)}: occFmt(fn.snaps.standaloneOccurrenceFMT, s, i) == ordPath(s, i)
 // occKey: x is the key of an occurrence 1..n of a registered test (n = its per-run count), or the key the code adds for n itself.
 //@ specfun occKey(nn Bool, d Array<Str,Bool>, v Array<Str,Int>, count Int, f Fn, x Str) Bool = exists id Str, k Int: nn && d[id] && ((1 <= k && k <= v[id] / count) || k == v[id] / count) && x == occFmt(f, id, k)
 // occKeyU: the same predicate as an opaque symbol; its definition is visible only where occurrences itself is verified
